@@ -191,6 +191,14 @@ func (c *conn) sread() (f *Frag, err error) {
 		f.Error = codec.ErrMsgRspTooLarge
 	}
 
+	// an error reply to one fragment of a split request is the reply to the whole request
+	if f.Type == codec.RspError {
+		switch f.Peer.Type {
+		case codec.ReqMget, codec.ReqMset, codec.ReqDel:
+			f.Error = codec.Error(f.RspBody)
+		}
+	}
+
 	f.Peer.FragDoneNumber++
 
 	if f.Error.Nil() {
